@@ -171,7 +171,7 @@ def run(ctx):
     T = ctx.tables()
     ctx.regen({'AaTables.lean': tolean.aa_tables(T)})
     ctx.driver_path = ctx.driver()
-    broken = ctx.audit(THEOREMS)
+    broken = ctx.audit(THEOREMS, {'AaVerif.Props.Full.C12Full': ['C12Full.C12_capability_read_full', 'C12Full.C12_network_read_full', 'C12Full.C12_signal_read_full']})
     rng = ctx.rng
     g = R9.Gen9(rng, T)
     P = Parser(ctx)
